@@ -72,9 +72,10 @@ Definition enc_constr (c : constr) : list Z :=
   enc_path (fst (c_port c)) ++ [snd (c_port c); match c_bit c with Some k => k | None => -1 end; c_pin c]
   ++ enc_alist (c_attrs c).
 Definition oz (k : Z) : option Z := if k <? 0 then None else Some k.
-Definition k_build (v : vendor) (t : table) (cm : connmap) (h : list req) (dclk drst : Z) (unused : list path) : list Z :=
+Definition k_build (v : vendor) (t : table) (cm : connmap) (h : list req) (dclk drst : Z) (unused : list path)
+           (raw : list (Z * Z)) : list Z :=
   if table_dup t then [-1; 4; 0] else
-  let (outs, r) := build v t cm h (oz dclk) (oz drst) unused in
+  let (outs, r) := build v t cm h (oz dclk) (oz drst) unused (map (fun kw => (Z.to_nat (fst kw), snd kw)) raw) in
   zlen outs :: map (fun o => match snd o with Ok _ => 0 | Error e => enc_err e end) outs
   ++ match r with
      | inl e => [-1; enc_err e]
